@@ -55,7 +55,18 @@ var alphabet = []pk{
 	{sym: "F0", kind: "profile", prof: refwire.Profile{}},
 	{sym: "X1", kind: "exc", exc: []refwire.Exception{{Code: 60, Name: "DB::Exception", Message: "DB::Exception: Table default.t doesn't exist", Stack: "0. stack"}}},
 	{sym: "X3", kind: "exc", exc: []refwire.Exception{{Code: 395, Name: "DB::Exception", Message: "outer", Stack: "s1"}, {Code: 241, Name: "DB::Exception", Message: "middle", Stack: "s2"}, {Code: 60, Name: "DB::ErrnoException", Message: "inner", Stack: ""}}},
+	{sym: "Xd", kind: "exc", exc: deepChain(40)},
 	{sym: "Z", kind: "eos"},
+}
+
+// deepChain: a chain of n causes with distinct codes (every one of them must be recoverable
+// from the returned error, and the packet must be read to its end).
+func deepChain(n int) []refwire.Exception {
+	out := make([]refwire.Exception, n)
+	for i := range out {
+		out[i] = refwire.Exception{Code: int32(1000 + i), Name: "DB::Exception", Message: fmt.Sprintf("cause %d", i), Stack: "s"}
+	}
+	return out
 }
 
 // cols renders the rows of a data packet in one of two schemas: (v UInt64, s String) or
@@ -484,7 +495,7 @@ func body03seg(k c03case, sg seg, prop string) Body {
 
 // C03 — results, telemetry and exceptions are delivered exactly once, in order.
 func C03(c *vk.Ctx) {
-	c.Rule("all server scripts of length <= n (quick 3, thorough 4) over the 19-symbol alphabet {Data header / 1 row / 3 rows / 3 other rows, empty end block, Totals, Progress (all counters / all zero / write counters only / elapsed time only), Profile (filled / all zero), ProfileEvents 2 / 0 rows, Log 2 rows, TableColumns, Exception depth 1 / 3, EndOfStream} followed by EndOfStream, x {plain, LZ4} x {typed, Auto, no} result binding x two block schemas ((UInt64, String) and (LowCardinality(String), Array(UInt64), Nullable(String))) with every callback present, at the newest revision; plus all scripts of length <= 2 (thorough 3) x revisions on both sides of every packet-affecting threshold x callback sets {all, none, each alone, deprecated per-item}; plus scripts of length <= 2 x each callback failing; plus scripts of length <= 2 on a client whose previous query ended with a server exception or ended well. Every case is one execution of the real Connect + Do against the reference peer (default schedule); oracle = a reference interpreter of the specified receive loop. distinct_nontrivial = cases.")
+	c.Rule("all server scripts of length <= n (quick 3, thorough 4) over the 20-symbol alphabet {Data header / 1 row / 3 rows / 3 other rows, empty end block, Totals, Progress (all counters / all zero / write counters only / elapsed time only), Profile (filled / all zero), ProfileEvents 2 / 0 rows, Log 2 rows, TableColumns, Exception depth 1 / 3 / 40, EndOfStream} followed by EndOfStream, x {plain, LZ4} x {typed, Auto, no} result binding x two block schemas ((UInt64, String) and (LowCardinality(String), Array(UInt64), Nullable(String))) with every callback present, at the newest revision; plus all scripts of length <= 2 (thorough 3) x revisions on both sides of every packet-affecting threshold x callback sets {all, none, each alone, deprecated per-item}; plus scripts of length <= 2 x each callback failing; plus scripts of length <= 2 on a client whose previous query ended with a server exception or ended well. Every case is one execution of the real Connect + Do against the reference peer (default schedule); oracle = a reference interpreter of the specified receive loop. distinct_nontrivial = cases.")
 	quick := c.Quick()
 	maxLen, maxLenRev := 3, 2
 	if !quick {
